@@ -10,7 +10,7 @@ LEAN_MODULE = "HexProps.C18"
 ZONES_QUICK = ["Asia/Kolkata", "America/New_York", "NPT-5:45"]
 ZONES_ALL = ZONES_QUICK + ["Australia/Lord_Howe", "Europe/London", "UTC", "Pacific/Chatham"]
 SCOPE = [("manager.collapse", 120, 50, {"tz": z}) for z in ZONES_QUICK] + \
-        [("manager.fill", 60, 50, {"tz": "Asia/Kolkata"})] + \
+        [("manager.fill", 60, 50, {"tz": "Asia/Kolkata"}), ("manager.fill", 60, 50, {"tz": "America/New_York"})] + \
         [("manager.collapse", 120, 50, {"tz": z, "thorough_only": True}) for z in ZONES_ALL[3:]]
 ORACLE_RULE = ("C18: the C03 scenarios on the real CandleManager in worker processes whose TZ is set to each zone (tzset), including streams placed "
                "on DST transition days of that zone, compared exactly with the zone-free independent resampler")
@@ -28,10 +28,11 @@ TRANSITIONS = {
 
 
 def _case(rng, idx, params):
-    scn, meta = om.gen_scn(rng, tf=True, size=params.get("size", 50))
+    scn, meta = om.gen_scn(rng, tf=True, fill=rng.random() < 0.4, size=params.get("size", 50))
     tz = params["tz"]
-    if tz in TRANSITIONS and rng.random() < 0.5 and scn["stream"]:
-        base = rng.choice(TRANSITIONS[tz]) + rng.randint(-7200, 7200)
+    if tz in TRANSITIONS and rng.random() < 0.6 and scn["stream"]:
+        span = scn["stream"][-1][0] - scn["stream"][0][0]
+        base = rng.choice(TRANSITIONS[tz]) + 7200 - rng.randint(0, max(span, 7200))
         shift = base - scn["stream"][0][0]
         scn["stream"] = [(t + shift,) + tuple(r) for (t, *r) in scn["stream"]]
         meta["transition_day"] = True
